@@ -3,6 +3,7 @@ package wl
 import (
 	"fmt"
 	"math/rand"
+	"strings"
 	"sync"
 	"time"
 
@@ -284,6 +285,15 @@ func c17e2e(c *wk.Ctx) {
 		}
 		idx++
 	}
+	// (a2) hostile and look-alike error texts through the live client: every one must come back to its caller as a
+	// structured error with the server's code (no panic in the caller, nothing swallowed, nothing repeated elsewhere)
+	for k := 0; k < c.Pick(4, 40); k++ {
+		if c.Mine(idx) {
+			c.Begin(idx, fmt.Sprintf("error texts %d", k))
+			c17texts(c, idx, c.Rand(idx))
+		}
+		idx++
+	}
 	// (b) PHONE_MIGRATE_X
 	for k := 0; k < c.Pick(6, 80); k++ {
 		if c.Mine(idx) {
@@ -387,4 +397,106 @@ func c17migrate(c *wk.Ctx, idx int, r *rand.Rand, configured bool, inflight int)
 	if idx%3 == 0 {
 		c.Sample(map[string]interface{}{"path": "PHONE_MIGRATE_X", "configured": configured, "dc": dc, "calls_before": inflight})
 	}
+}
+
+// c17texts: the server answers each request with an rpc_error whose text comes from a hostile list; a second data
+// centre is configured under several numbers so that a wrongly handled *_MIGRATE_ text would be repeated there.
+func c17texts(c *wk.Ctx, idx int, r *rand.Rand) {
+	texts := []string{"PHONE_MIGRATE_", "PHONE_MIGRATE_abc", "PHONE_MIGRATE_-", "PHONE_MIGRATE_99999999999999999999", "PHONE_MIGRATE_%d",
+		"USER_MIGRATE_2", "NETWORK_MIGRATE_2", "FILE_MIGRATE_2", "STATS_MIGRATE_2", "USER_MIGRATE_3", "NETWORK_MIGRATE_4",
+		"FLOOD_WAIT_abc", "FLOOD_WAIT_", "FLOOD_WAIT_7", "SLOWMODE_WAIT_30", "INTERDC_2_CALL_ERROR", "INTERDC_2_CALL_RICH_ERROR", "FILE_PART_3_MISSING",
+		"FILE_PART_MISSING", "%s%s%s", "100%", "", "AUTH_KEY_UNREGISTERED", "UNKNOWN_TEXT_X", "PHONE_MIGRATE_X", "PHONE_MIGRATE_77"}
+	var mu sync.Mutex
+	textFor := map[uint64]string{}
+	e, err := newRPCEnv(c, idx, r, envOpts{Handler: func(e *rpcEnv, p pendingReq, in *mtp.Inner) bool {
+		mu.Lock()
+		t, ok := textFor[p.uid]
+		mu.Unlock()
+		if !ok {
+			e.sendGroup(p.conn, [][]byte{e.resultBody(p, wrapOpts{})}, []uint64{p.uid}, false)
+			return true
+		}
+		b := refserver.RPCResult(p.msgID, refserver.RPCError(int32(300+p.uid%200), t))
+		e.sendGroup(p.conn, [][]byte{b}, []uint64{p.uid}, false)
+		return true
+	}})
+	if err != nil {
+		c.Viol("C17", idx, "e2e/setup", err.Error(), nil)
+		return
+	}
+	defer e.close()
+	arrived2 := 0
+	var srv2 *refserver.Server
+	srv2 = e.w.server(refserver.HandlerFunc(func(cn *refserver.Conn, in *mtp.Inner) {
+		if uid, _, res, ok := answerFor(in.Body); ok {
+			mu.Lock()
+			arrived2++
+			mu.Unlock()
+			key, _ := cn.KeySession()
+			s, _ := srv2.Salt(key)
+			cn.SendEncrypted(refserver.Out{MsgID: srv2.NextMsgID(1), SeqNo: cn.NextSeq(true), Body: refserver.RPCResult(in.MsgID, res)}, in.Salt, "rpc_result", map[string]interface{}{"uid": fmt.Sprint(uid)})
+			_ = s
+		}
+	}))
+	srv2.SetSalt(e.key, e.salt())
+	e.m.SetDCList(map[int]string{2: srv2.Addr, 3: srv2.Addr, 4: srv2.Addr})
+	used := map[uint64]bool{}
+	perm := r.Perm(len(texts))
+	for _, ti := range perm[:8+r.Intn(8)] {
+		text := texts[ti]
+		kind := rpcKinds[r.Intn(len(rpcKinds))]
+		uid := uidFor(r, kind, used)
+		mu.Lock()
+		textFor[uid] = text
+		mu.Unlock()
+		var rec callRec
+		if !withTimeout(30*time.Second, func() { rec = e.doCall(0, uid, kind, false) }) {
+			if st, dump := isStalled(); st {
+				c.Viol("C17", idx, "e2e/text-stall", fmt.Sprintf("a request answered with rpc_error %q never returned", text), dump)
+			} else {
+				c.Log.Emit(coreInconclusive("c17texts: call did not return for " + text))
+			}
+			return
+		}
+		c.Count("e2e.error_texts", 1)
+		c.Distinct("text", text, kind)
+		wantCode := int(300 + uid%200)
+		handled := strings.HasPrefix(text, "PHONE_MIGRATE_") && text != "PHONE_MIGRATE_X" && isAllDigits(strings.TrimPrefix(text, "PHONE_MIGRATE_"))
+		switch {
+		case rec.Panic != "":
+			c.Viol("C17", idx, "e2e/text-panic/"+classOfText(text), fmt.Sprintf("rpc_error %q made the caller panic: %s", text, rec.Panic), text)
+			return
+		case handled:
+			// PHONE_MIGRATE_<n>: handled (configured) or returned as an error (unconfigured) — covered by the migration cases
+		case rec.Err == "":
+			c.Viol("C17", idx, "e2e/error-swallowed/"+classOfText(text), fmt.Sprintf("rpc_error %q (code %d) was not returned to the caller: the call came back with %q", text, wantCode, rec.Got), text)
+		case rec.ErrCode != wantCode:
+			c.Viol("C17", idx, "e2e/text-code/"+classOfText(text), fmt.Sprintf("rpc_error %q: caller got code %d, server sent %d (err %q)", text, rec.ErrCode, wantCode, rec.Err), text)
+		}
+	}
+	mu.Lock()
+	a2 := arrived2
+	mu.Unlock()
+	if a2 > 0 {
+		c.Viol("C17", idx, "e2e/repeated-at-another-dc", fmt.Sprintf("%d requests were repeated at another data centre although no PHONE_MIGRATE_<configured> was answered", a2), nil)
+	}
+}
+
+func isAllDigits(s string) bool {
+	if s == "" {
+		return false
+	}
+	for _, r := range s {
+		if r < '0' || r > '9' {
+			return false
+		}
+	}
+	return true
+}
+
+func classOfText(t string) string {
+	if i := strings.LastIndex(t, "_"); i > 0 {
+		return t[:i+1] + "*"
+	}
+	return "other"
 }
